@@ -5,6 +5,7 @@ From Coq Require Import Reals Lra List.
 Set Warnings "-ambiguous-paths".   (* Coquelicot's Rbar coercion notice would otherwise end up in the Print Assumptions output *)
 From Coquelicot Require Import Coquelicot.
 From PV Require Import Np.NpR Gen.GenHandles Proofs.C12Handles Proofs.C12NegBinRefuted.
+From PV Require Import Base.Index Base.Sum Np.Array Model.Repr Model.C12Gcp Proofs.C12Tensor Proofs.C12TensorR.
 Local Open Scope R_scope.
 
 (* ---- T1: every gradient handle is the derivative of its loss handle on the loss's domain ---------- *)
@@ -72,6 +73,97 @@ Print Assumptions C12_negative_binomial_deriv_partial.
    Proof. exact negative_binomial_deriv. Qed.
    Print Assumptions C12_negative_binomial_deriv.                                                      *)
 (* ---- END block ---------------------------------------------------------------------------------- *)
+
+(* ---- T2: tensor-level evaluation (model Model/C12Gcp.v of fg.evaluate, fg_est.estimate, mttkrps) ------------ *)
+Section C12_T2.
+Variable V : Type.
+Variables (v0 v1 : V) (vadd vmul vsub : V -> V -> V) (vopp : V -> V).
+Hypothesis Vring : ring_theory v0 v1 vadd vmul vsub vopp (@eq V).
+
+(* the objective evaluate returns is the (optionally weighted) sum of the loss over all entries: this is the
+   definition of the model (eval_F), tied to fg.evaluate by the correspondence stream *)
+Theorem C12_objective : forall (f : V -> V -> V) (K : ktensor V) (X : dense V) (w : option (dense V)),
+  eval_F v0 v1 vadd vmul f K X w =
+  sum_over v0 vadd (allsubs (dshape X))
+    (fun i => vmul (f (den_dense v0 X i) (den_k v0 v1 vadd vmul K i)) (wget v0 v1 w i)).
+Proof. reflexivity. Qed.
+
+(* the model tensor is linear in each factor matrix *)
+Theorem C12_multilinear : forall (K : ktensor V) k A H I R i,
+  (k < length (kfactors K))%nat -> nth k (kfactors K) nil = A -> mdims V A I R -> mdims V H I R ->
+  den_k v0 v1 vadd vmul (kset V K k (madd V vadd A H)) i =
+  vadd (den_k v0 v1 vadd vmul K i) (den_k v0 v1 vadd vmul (kset V K k H) i).
+Proof. exact (den_k_multilinear V v0 v1 vadd vmul vsub vopp Vring). Qed.
+
+(* adjoint identity: <Y, model with A_k := H> = <mttkrp(Y, factors, k), H>, each column weighted by the model weight *)
+Theorem C12_adjoint : forall (K : ktensor V) k (H : list (list V)) (Y : idx -> V) s R,
+  kshape (kset V K k H) = s -> krank K = R -> (k < length (kfactors K))%nat -> mdims V H (nth k s 0%nat) R ->
+  sum_over v0 vadd (allsubs s) (fun i => vmul (Y i) (den_k v0 v1 vadd vmul (kset V K k H) i)) =
+  mpair V v0 vadd vmul (kweights K) (mttkrp_den v0 v1 vadd vmul s Y (kfactors K) R k) H (nth k s 0%nat) R.
+Proof. exact (mttkrp_adjoint V v0 v1 vadd vmul vsub vopp Vring). Qed.
+
+(* estimate_helper's forward/backward passes compute the leave-one-out products, for every number of modes *)
+Theorem C12_leave_one_out : forall (As : list (list (list V))) (i : list nat) (r k : nat),
+  length i = length As -> (k < length As)%nat ->
+  nth k (loo_alg v1 vmul (urow v0 As i r)) v0 = kprod_skip v0 v1 vmul As i r k.
+Proof. exact (loo_is_kprod_skip V v0 v1 vadd vmul vsub vopp Vring). Qed.
+
+(* the sampled estimator on "every subscript once, unit weights, no correction range" equals the exact evaluation *)
+Theorem C12_estimate_exact : forall (f g : V -> V -> V) (As : list (list (list V))) (R : nat) (X : dense V),
+  wf_dense X -> dshape X = map nrows As ->
+  est_F v0 v1 vadd vmul vsub f As R (allsubs (dshape X)) (ddata X) (repeat v1 (size (dshape X))) nil =
+    eval_F v0 v1 vadd vmul f (mkK (repeat v1 R) As) X None /\
+  est_G v0 v1 vadd vmul vsub g As R (allsubs (dshape X)) (ddata X) (repeat v1 (size (dshape X))) nil (dshape X) =
+    eval_G v0 v1 vadd vmul g (mkK (repeat v1 R) As) X None.
+Proof.
+  intros f g As R X W E.
+  exact (conj (estimate_exact_F V v0 v1 vadd vmul vsub vopp Vring f As R X W E)
+              (estimate_exact_G V v0 v1 vadd vmul vsub vopp Vring g As R X W E)).
+Qed.
+End C12_T2.
+Print Assumptions C12_objective.
+Print Assumptions C12_multilinear.
+Print Assumptions C12_adjoint.
+Print Assumptions C12_leave_one_out.
+Print Assumptions C12_estimate_exact.
+
+(* the matrices evaluate returns ARE the partial derivatives of the objective in every factor entry, for every loss
+   whose gradient handle is its derivative on m >= lb (T1) and every unit-weight model whose entries stay >= lb
+   (lb = -infinity: take the unrestricted version C12_gradient_all) *)
+Theorem C12_gradient : forall (lb : R) (f g : R -> R -> R) (K : ktensor R) (X : dense R) (w : option (dense R)) (k j r : nat),
+  (forall x m, lb <= m -> is_derive (fun m => f x m) m (g x m)) ->
+  (forall i, inb (kshape K) i = true -> lb <= den_k 0 1 Rplus Rmult K i) ->
+  (forall q, (q < krank K)%nat -> nth q (kweights K) 0 = 1) ->
+  wf_k K -> (k < length (kfactors K))%nat -> (j < nrows (nth k (kfactors K) nil))%nat -> (r < krank K)%nat ->
+  dshape X = kshape K ->
+  is_derive (fun t => eval_F 0 1 Rplus Rmult f (kset R K k (mset (nth k (kfactors K) nil) j r t)) X w)
+            (mget 0 (nth k (kfactors K) nil) j r)
+            (mget 0 (nth k (eval_G 0 1 Rplus Rmult g K X w) nil) j r).
+Proof. exact eval_gradient_lb. Qed.
+Print Assumptions C12_gradient.
+
+Theorem C12_gradient_all : forall (f g : R -> R -> R) (K : ktensor R) (X : dense R) (w : option (dense R)) (k j r : nat),
+  (forall x m, is_derive (fun m => f x m) m (g x m)) ->
+  (forall q, (q < krank K)%nat -> nth q (kweights K) 0 = 1) ->
+  wf_k K -> (k < length (kfactors K))%nat -> (j < nrows (nth k (kfactors K) nil))%nat -> (r < krank K)%nat ->
+  dshape X = kshape K ->
+  is_derive (fun t => eval_F 0 1 Rplus Rmult f (kset R K k (mset (nth k (kfactors K) nil) j r t)) X w)
+            (mget 0 (nth k (kfactors K) nil) j r)
+            (mget 0 (nth k (eval_G 0 1 Rplus Rmult g K X w) nil) j r).
+Proof. exact eval_gradient. Qed.
+Print Assumptions C12_gradient_all.
+
+(* T1 + T2 for one concrete loss: the Poisson objective and its gradient as generated from the source *)
+Theorem C12_gradient_poisson : forall (K : ktensor R) (X : dense R) (w : option (dense R)) (k j r : nat),
+  (forall i, inb (kshape K) i = true -> 0 <= den_k 0 1 Rplus Rmult K i) ->
+  (forall q, (q < krank K)%nat -> nth q (kweights K) 0 = 1) ->
+  wf_k K -> (k < length (kfactors K))%nat -> (j < nrows (nth k (kfactors K) nil))%nat -> (r < krank K)%nat ->
+  dshape X = kshape K ->
+  is_derive (fun t => eval_F 0 1 Rplus Rmult poisson (kset R K k (mset (nth k (kfactors K) nil) j r t)) X w)
+            (mget 0 (nth k (kfactors K) nil) j r)
+            (mget 0 (nth k (eval_G 0 1 Rplus Rmult poisson_grad K X w) nil) j r).
+Proof. intros K X w k j r. exact (eval_gradient_lb 0 poisson poisson_grad K X w k j r (fun x m H => poisson_deriv x m H)). Qed.
+Print Assumptions C12_gradient_poisson.
 
 (* non-vacuity: the domain hypotheses are satisfiable and the derivative values are not trivially 0 *)
 Example C12_example_poisson : is_derive (fun m => poisson 3 m) 2 (1 - 3 / (2 + EPS)).
